@@ -25,11 +25,13 @@ def c01(tier: str) -> list[dict[str, Any]]:
     out = [
         plan("G2 two chains, 2 workers, initial pools symbolic", trav.menu("G2"), m, K=1, statuses=["PASS"], pool_bits="all", pool_states=["install", "customize"]),
         plan("G3 two leaves, 2 workers, one failure anywhere", trav.menu("G3"), m, K=1, statuses=["PASS", "FAIL"], max_nonpass=1, pool_bits="all", pool_states=["linux_virtuser", "windows_virtuser"], pool_fixed=DEEP),
-        plan("G1 eager, 3 workers, one failure", trav.menu("G1x3", lazy=False), m, K=1, statuses=["PASS", "FAIL", "NONE"], max_nonpass=1, pool_bits="shared", pool_states=["customize", "on_customize"]),
+        plan("G1 eager, 2 workers, one failure or missing result", trav.menu("G1", lazy=False), m, K=1, statuses=["PASS", "FAIL", "NONE"], max_nonpass=1, pool_bits="shared", pool_states=["customize", "on_customize"]),
+        plan("G8 removable state with a dependant, one worker excluded by its restrictions", trav.menu("G8"), m, K=1, statuses=["PASS"], pool_fixed={**DEEP, "linux_virtuser": ["shared"], "windows_virtuser": ["shared"], "connect": ["shared"]}),
     ]
     if tier == "thorough":
         out += [
             plan("G2 eager, 2 workers, pools symbolic, one failure", trav.menu("G2", lazy=False), m, K=2, statuses=["PASS", "FAIL"], max_nonpass=1, pool_bits="all", pool_states=["install", "customize", "connect"]),
+            plan("G1 eager, 3 workers, one failure", trav.menu("G1x3", lazy=False), m, K=1, statuses=["PASS", "FAIL", "NONE"], max_nonpass=1, pool_bits="shared", pool_states=["customize", "on_customize"]),
             plan("G3 3 workers, two failures", trav.menu("G3x3"), m, K=1, statuses=["PASS", "FAIL", "WARN"], max_nonpass=2, pool_bits="all", pool_states=["linux_virtuser", "windows_virtuser", "guisetup.noop"], pool_fixed=DEEP),
             plan("G4 cloning, 2 workers", trav.menu("G4"), m, K=1, statuses=["PASS", "FAIL"], max_nonpass=1, pool_bits="shared", pool_states=["connect", "guisetup.noop", "guisetup.clicked"], pool_fixed={**DEEP, "linux_virtuser": ["shared"], "windows_virtuser": ["shared"]}),
             plan("G6 remote clusters, pools symbolic", trav.menu("G6b"), m, K=1, statuses=["PASS", "FAIL"], max_nonpass=1, pool_bits="all", pool_states=["install", "customize"]),
@@ -103,6 +105,13 @@ def c04(tier: str) -> list[dict[str, Any]]:
     return out
 
 
+def _extra_vm_state(run: Any) -> None:
+    """An unusual but legal node: the test that saves a removable image state also saves an unmarked vm state."""
+    for n in run.graph.nodes:
+        if not n.is_flat() and "client_noop" in n.params["name"] and "tutorial_gui" in n.params["name"]:
+            n.params["set_state_vms_vm2"] = "guirunning"
+
+
 def c05(tier: str) -> list[dict[str, Any]]:
     m = [M.c05]
     virt = {**DEEP, "linux_virtuser": ["shared"], "windows_virtuser": ["shared"]}
@@ -110,12 +119,17 @@ def c05(tier: str) -> list[dict[str, Any]]:
         plan("G3 removable state at depth 1, 2 workers", trav.menu("G3"), m, K=1, statuses=["PASS", "FAIL"], max_nonpass=1, pool_fixed=DEEP),
         plan("G3 pool_filter=copy", trav.menu("G3", params={"pool_filter": "copy"}, label="G3-copy"), m, K=1, statuses=["PASS"], pool_fixed=virt),
         plan("G4 removable states at depth 2 with cloning", trav.menu("G4"), m, K=1, statuses=["PASS", "FAIL"], max_nonpass=1, pool_fixed=virt),
+        plan("G8 removable state with a dependant, one worker excluded by its restrictions", trav.menu("G8"), m, K=1, statuses=["PASS"], pool_fixed={**virt, "connect": ["shared"]}),
+        plan("G3 eager, a node saving a removable image state and a reusable vm state", trav.menu("G3", lazy=False, label="G3-mixed-marks"), m, K=1, statuses=["PASS"], pool_fixed=virt, setup=_extra_vm_state),
+        plan("G7 removable state with a retried dependant, two remote workers of one cluster", trav.menu("G7", params={"max_tries": "2"}, label="G7-tries2"), m, K=1, statuses=["PASS"], pool_fixed={**virt, "connect": ["shared"]}),
     ]
     if tier == "thorough":
         out += [
             plan("G3 3 workers", trav.menu("G3x3"), m, K=2, statuses=["PASS", "FAIL"], max_nonpass=1, pool_fixed=DEEP),
             plan("G3 eager", trav.menu("G3", lazy=False), m, K=2, statuses=["PASS", "FAIL", "NONE"], max_nonpass=1, pool_bits="shared", pool_states=["guisetup.noop", "guisetup.clicked"], pool_fixed=virt),
             plan("G4f finale, 2 workers", trav.menu("G4f"), m, K=1, statuses=["PASS", "FAIL"], max_nonpass=1, pool_fixed=virt),
+            plan("G6 removable state, workers of two clusters", trav.menu("G6d"), m, K=1, statuses=["PASS"], pool_fixed=DEEP),
+            plan("G7 retried dependant, lxc workers", trav.menu("G7l", params={"max_tries": "2"}, label="G7l-tries2"), m, K=1, statuses=["PASS", "FAIL"], max_nonpass=1, pool_fixed={**virt, "connect": ["shared"]}),
             plan("G23 mixed leaves", trav.menu("G23"), m, K=1, statuses=["PASS", "FAIL"], max_nonpass=1, pool_fixed=DEEP),
             plan("G3 retries", trav.menu("G3", params={"max_tries": "2"}, label="G3-tries2"), m, K=1, statuses=["PASS", "FAIL"], max_nonpass=2, pool_fixed=virt),
         ]
@@ -129,6 +143,7 @@ def c08(tier: str) -> list[dict[str, Any]]:
         plan("G3 2 workers", trav.menu("G3"), m, K=1, statuses=["PASS", "FAIL"], max_nonpass=1, pool_fixed=DEEP),
         plan("G5 worker with excluding restrictions", trav.menu("G5"), m, K=1, statuses=["PASS"]),
         plan("G6 remote clusters", trav.menu("G6b"), m, K=1, statuses=["PASS"], pool_fixed={"install": ["shared"]}),
+        plan("G6c two remote workers behind one gateway", trav.menu("G6c"), m, K=1, statuses=["PASS"], pool_fixed=DEEP),
     ]
     if tier == "thorough":
         out += [
